@@ -1,11 +1,40 @@
 """C17 - any query text either parses or is rejected with a query error, and terminates."""
+Q = "aw_query.query2."
 PROP = dict(
     id="C17",
     level="other",
-    contract_modules=["contracts.models"],
-    spec_modules=["contracts.models"],
-    functions=[],
+    contract_modules=["contracts.models", "contracts.query"],
+    spec_modules=["contracts.query"],
+    functions=[dict(fn=Q + "QInteger.check", rt_skip=True),
+               dict(fn=Q + "QVariable.check", rt_skip=True),
+               dict(fn=Q + "QString.check", rt_skip=True),
+               dict(fn=Q + "QFunction.check", rt_skip=True),
+               dict(fn=Q + "QDict.check", rt_skip=True),
+               dict(fn=Q + "QList.check", rt_skip=True),
+               dict(fn=Q + "_parse_token", rt_skip=True),
+               dict(fn=Q + "QInteger.parse", rt_skip=True),
+               dict(fn=Q + "QVariable.parse", rt_skip=True),
+               dict(fn=Q + "QString.parse", rt_skip=True),
+               dict(fn=Q + "QFunction.parse", rt_skip=True),
+               dict(fn=Q + "QDict.parse", rt_skip=True),
+               dict(fn=Q + "QList.parse", rt_skip=True),
+               dict(fn=Q + "parse", rt_skip=True)],
+    timeout_s=20,
     extra=[lambda run: run.query_mode("c17", n=(3000 if run.tier == "quick" else 60000))],
-    technique="run-time check of the real code (bounded); contract-based proof is layered on top where built",
-    explanation="bounded: random strings over the token alphabet and valid programs corrupted by deleting, duplicating, swapping or inserting characters are run through aw_query.query with a 2 s limit; the call must terminate and either return or raise an exception of the query-error family; any other exception whose innermost frame is in aw_query (outside the body of a built-in) is a violation.",
+    technique="run-time check of the real code (bounded); with the scanners and parse functions proved total (only QueryParseException) and terminating against contracts",
+    explanation="deductive (parsing): for every string, the six scanners (X.check), _parse_token, the six X.parse functions and parse(statement) raise nothing but QueryParseException - no IndexError from indexing an emptied string, no ValueError from int() (a QInteger token consists of str.isdecimal characters, which int() accepts), no AttributeError from a missing token class - and terminate: every `for` runs over a finite string, every `while` strictly shortens its remaining text, and the mutually recursive parse functions are called on a strictly shorter text (measure len(string)); parse() is proved for the stripped, non-empty statements query() hands it. Character classes and str.strip are uninterpreted apart from the facts stated in T-UNICODE; Python's recursion limit is not modelled (A-STACK: nesting depth ~1000 is outside the property's input domain). Interpretation (name/arity/type resolution, aw_query/functions.py) is only bounded. " 
+                "bounded: random strings over the token alphabet and valid programs corrupted by deleting, duplicating, swapping or inserting characters are run through aw_query.query with a 2 s limit; the call must terminate and either return or raise an exception of the query-error family; any other exception whose innermost frame is in aw_query (outside the body of a built-in) is a violation.",
 )
+
+F = "/repo/aw_query/query2.py"
+MUTANTS = [
+    (F, '            if char.isdecimal():\n                token += char', '            if char.isdigit():\n                token += char', True),   # int() rejects digits such as superscript two
+    (F, '        if token[-1] != quotes_type or len(token) < 2:', '        if token[-1] != quotes_type:', True),   # a lone quote is taken for a string
+    (F, '    if len(string) == 0:\n        return (None, ""), string\n', '', True),   # scanners index an empty string
+    (F, '            if not arg_t:\n                break  # Only whitespace left\n', '', True),   # None.parse
+    (F, '            if len(entries_str) == 0 or entries_str[0] != ":":', '            if entries_str[0] != ":":', True),   # IndexError after a dict key at the end
+    (F, '        entries_str = string[1:-1].strip()\n        ls: List[QToken] = []', '        entries_str = string.strip()\n        ls: List[QToken] = []', True),   # QList.parse recurses on the same text forever
+    (F, '    if not val_str:\n        # TODO: Proper message\n        raise QueryParseException("Nothing to assign")\n', '', True),   # x= : None.parse
+    (F, '            if not val_t:\n                raise QueryParseException("List expected a value, got nothing")\n', '', True),   # [1, ] : None.parse
+    (F, '        return QInteger(int(string))', '        return QInteger(int(string) + 0)', False),   # same value
+]
